@@ -401,8 +401,11 @@ func validateField(d *datadictionary.DataDictionary,
 		values := [][]byte{field.value}
 		switch fieldType.Type {
 		case "MULTIPLESTRINGVALUE", "MULTIPLEVALUESTRING", "MULTIPLECHARVALUE":
-			// Several space separated values, each of them one of the enumeration.
-			values = bytes.Split(field.value, []byte(" "))
+			// Several space separated values, each of them one of the enumeration
+			// (unless the value as a whole is one: a few enumerations have members with spaces).
+			if _, wholeValue := allowedValues[string(field.value)]; !wholeValue {
+				values = bytes.Split(field.value, []byte(" "))
+			}
 		}
 		for _, value := range values {
 			if _, validValue := allowedValues[string(value)]; !validValue {
